@@ -2,6 +2,9 @@
 use geo_types::*;
 
 thread_local! {
+    /// `SC <k>` line prefix: every input coordinate is multiplied by 2^k (exactly: the generator only adds the prefix
+    /// when no coordinate of the case can leave the normal range), here and in the Lean driver's `P.pt`
+    pub static SCALE: std::cell::Cell<f64> = std::cell::Cell::new(1.0);
     /// `NZ <k>` line prefix: (k, running count of zero coordinate components parsed so far)
     pub static NEGZERO: std::cell::Cell<Option<(u64, u64)>> = std::cell::Cell::new(None);
 }
@@ -134,8 +137,9 @@ impl<'a> Toks<'a> {
         }
     }
     pub fn coord(&mut self) -> R<Coord<f64>> {
-        let x = nz(self.num()?);
-        let y = nz(self.num()?);
+        let s = SCALE.with(|c| c.get());
+        let x = nz(self.num()?) * s;
+        let y = nz(self.num()?) * s;
         Ok(Coord { x, y })
     }
     pub fn coords(&mut self) -> R<Vec<Coord<f64>>> {
